@@ -365,7 +365,23 @@ def outer_origins(F, fn, op, depth=3, transparent_extra=(), _seen=None):
                         out.append((fn2, _with_proj(o2, o.proj[1:])))
             continue
         if fn.get("def_kind") == "Closure":
-            out.append((fn, o))
+            # a parameter of a closure that its owner calls directly (`let lower_field = |key| ..; lower_field("from")`): the
+            # argument tuple of each such call.  A closure handed to library code keeps its parameter as it is.
+            resolved = False
+            for owner, rv in closure_creations(F, fn["path"]) or []:
+                odu = mir.DefUse(owner)
+                for bi2, t2 in mir.calls(owner):
+                    if (t2.get("callee") or "") not in ("std::ops::Fn::call", "std::ops::FnMut::call_mut", "std::ops::FnOnce::call_once") or len(t2["args"]) != 2:
+                        continue
+                    if not any(x.kind == "agg" and x.rv is rv for x in mir.provenance(owner, odu, t2["args"][0])):
+                        continue
+                    for x in mir.provenance(owner, odu, t2["args"][1]):
+                        if x.kind == "agg" and "tuple" in x.rv and 0 <= o.local - 2 < len(x.rv["ops"]):
+                            for fn2, o2 in outer_origins(F, owner, x.rv["ops"][o.local - 2], depth - 1, transparent_extra, _seen):
+                                out.append((fn2, _with_proj(o2, o.proj)))
+                                resolved = True
+            if not resolved:
+                out.append((fn, o))
             continue
         sites = callers_index(F).get(fn["path"], [])
         if not sites:
